@@ -52,6 +52,15 @@ enum Step {
 
 /// Execute one schedule.
 pub fn run_schedule(values: &[Val], ch: &Choices, b: Bounds, max_len: usize) -> Result<Stats, String> {
+    run_schedule_relimit(values, ch, b, max_len, None)
+}
+
+/// `relimit = Some((q, m2))`: before the q-th cancel/error recovery (`sync`) the caller calls
+/// `set_max_len(m2)`.  Documented meaning: values written afterwards are judged against m2; the
+/// frame that is being delivered is unaffected.
+pub fn run_schedule_relimit(values: &[Val], ch: &Choices, b: Bounds, max_len: usize, relimit: Option<(u32, usize)>) -> Result<Stats, String> {
+    let mut cur_max = max_len;
+    let mut recoveries = 0u32;
     // the writer reuses a caller-supplied buffer with stale content (`new` is `with_buffer` of an
     // empty one; the junk length varies with the values, 0 included)
     let mut w = AsyncWriter::with_buffer(Sink::new(ch.clone(), b), crate::c14::junk_buffer(values.len() * 5 + max_len));
@@ -99,7 +108,7 @@ pub fn run_schedule(values: &[Val], ch: &Choices, b: Bounds, max_len: usize) -> 
             Val::Data(d) => Some(minicbor::to_vec(d).unwrap()),
             Val::Refuses => None,
         };
-        let committed = matches!(&payload, Some(p) if p.len() <= max_len);
+        let committed = matches!(&payload, Some(p) if p.len() <= cur_max);
         let before_sink = w.writer().out.len();
         let mut zero_pending = w.writer().zeros_injected;
         let step = {
@@ -175,6 +184,15 @@ pub fn run_schedule(values: &[Val], ch: &Choices, b: Bounds, max_len: usize) -> 
         }
         state_check!("after write");
         // ---- sync to completion --------------------------------------------
+        if need_sync {
+            recoveries += 1;
+            if let Some((q, m2)) = relimit {
+                if q == recoveries {
+                    w.set_max_len(m2 as u32);
+                    cur_max = m2;
+                }
+            }
+        }
         while need_sync {
             let step = {
                 let mut fut = Box::pin(w.sync());
@@ -361,7 +379,9 @@ fn walk(rep: &mut Report, seed: u64, i: u64, states: &mut HashSet<(u8, usize, us
     ch.borrow_mut().begin_run();
     rep.eval();
     let rp = vec!["c16".into(), "--seed".into(), seed.to_string(), "--replay".into(), "walk".into(), i.to_string()];
-    match mon::guarded(|| run_schedule(&values, &ch, rb, max_len)) {
+    // one walk in three changes the limit once, right before a cancel / error recovery
+    let relimit = if i % 3 == 1 { Some((1 + rng.below(3) as u32, *rng.pick(&[0usize, 1, 6, 40, 8192]))) } else { None };
+    match mon::guarded(|| run_schedule_relimit(&values, &ch, rb, max_len, relimit)) {
         Err(p) => rep.violation(&format!("{}|panic", ID), J::obj().with("what", J::s(p.message)), rp),
         Ok(Err(e)) => rep.violation(&format!("{}|{}", ID, classify(&e)), J::obj().with("what", J::s(e)).with("values", J::U(values.len() as u64)), rp),
         Ok(Ok(st)) => {
